@@ -22,7 +22,8 @@ ASSUMPTIONS = ["attach_to_group is exercised with reference_columns=None only (i
                "the rule 'rows appended to a non-empty net.group carry NaN in reference_column, older NaN become None' is an "
                "observed pandas behaviour, modelled in add_rows and validated by the correspondence",
                "group in/out-of-service and group_res_* are checked by the oracle only (they act on group_element_index)"]
-TRUSTED = ["the python set model of the oracle (props/c27.py SetModel)"]
+TRUSTED = ["the python set model of the oracle (props/c27.py SetModel)",
+           "refcols_guard (props/c27.py) mirrors the boolean guard G27_refcols of coq/C27/Model.v; the two are compared on every case"]
 ETS = ["load", "sgen", "line", "switch"]
 ECODE = {e: i for i, e in enumerate(ETS)}
 INS = ["load", "sgen", "line"]          # tables with an in_service column
@@ -264,6 +265,20 @@ def classify(op, st0, g, e, what=""):
     return None
 
 
+def refcols_guard(st0):
+    """python mirror of C27.Model.G27_refcols: every reference-column row sits on a table with unique names and indices"""
+    for r in st0["grp"]:
+        if r[3] == 2:
+            if r[1] >= len(st0["tabs"]):
+                continue                     # element type outside the modelled tables: mk_tab gives the empty table
+            tab = st0["tabs"][r[1]]
+            names = [n for _, n in tab]
+            idx = [i for i, _ in tab]
+            if len(set(names)) != len(names) or len(set(idx)) != len(idx):
+                return False
+    return True
+
+
 def rng_pick(ctx, l):
     return l[ctx.rng.randrange(len(l))]
 
@@ -357,12 +372,18 @@ def _judge(ctx, cases):
     terms = []
     for c in cases:
         ets = cq.lst([cq.nat(i) for i in range(len(ETS))])
-        terms.append("run_step %s %s %s %s" % (ets, zl(c["gids"]), st_term(c["before"]), op_term(c["op"])))
+        terms.append("run_step_g %s %s %s %s" % (ets, zl(c["gids"]), st_term(c["before"]), op_term(c["op"])))
     model = ctx.coq_eval("c27", "C27.Model", terms, prelude="Open Scope Z_scope.", shard=40, timeout=280)
-    for c, m in zip(cases, model):
+    for c, mg_ in zip(cases, model):
         ctx.corr_checked += 1
         brief = {"op": c["op"], "before": c["before"]}
         ok = True
+        guard, m = mg_
+        # the guard of the set-model refinement theorems (C27_detach/drop_elements/drop_lines_refines_set_model)
+        if guard != refcols_guard(c["before"]):
+            ok = False
+            ctx.disagreement("%s: G27_refcols differs: model=%s python=%s" % (c["op"], guard, refcols_guard(c["before"])), brief)
+        ctx.count("G27_refcols:%s" % guard)
         if isinstance(m, cq.Err):
             if m.s == "Unsupported":
                 ctx.count("model_unsupported")
@@ -393,6 +414,8 @@ def _judge(ctx, cases):
             fid = classify(c["op"], c["before"], g, e, what)
             if fid is not None and not ok:
                 fid = None
+            if fid is not None and guard is True:
+                fid = None                      # under G27_refcols the refinement is proved: this cannot be the recorded defect
             key = fid or "spec"
             if key in seen:
                 continue
